@@ -13,7 +13,7 @@ Extracted (nothing is guessed; an unrecognised body gives `none` and a failed st
 import ast
 import copy
 
-from translator.extract import drop_logging, find_func, generator, parse, strip_docstring
+from translator.extract import drop_logging, generator, parse, strip_docstring
 
 HELPERS = ('find_state_change_intervals', 'find_state_change', 'walk_state_change_interval', 'find_state_changes')
 
